@@ -380,9 +380,13 @@ def extract_globals(incdir):
     static, function static), from the five .cc files and the umbrella header"""
     out = []
     srcs = ["sigc++/connection.cc", "sigc++/scoped_connection.cc", "sigc++/signal_base.cc", "sigc++/trackable.cc", "sigc++/functors/slot_base.cc"]
-    for s in srcs:
-        tu = '#include "%s"\n' % os.path.join(REPO, s)
-        objs, err = clang_ast("", incdir, tu_text=tu)
+    for s in srcs + ["<umbrella>"]:
+        if s == "<umbrella>":
+            # the header-only part (templates of signal.h, slot.h, the adaptors): every declaration of namespace sigc
+            objs, err = clang_ast("sigc", incdir)
+        else:
+            tu = '#include "%s"\n' % os.path.join(REPO, s)
+            objs, err = clang_ast("", incdir, tu_text=tu)
         ft = FileTracker()
         for o in objs:
             def visit(n, f):
@@ -574,6 +578,32 @@ def extract_signal_connect(incdir):
     return sorted(rows)
 
 
+def extract_memfun_class(incdir):
+    """the class in whose name each bound mem_fun(obj, method) factory types its functor: it must be the
+    class of the OBJECT (first template parameter T_obj), not the class that declares the method (T_obj2),
+    or a method inherited from a non-trackable base is not tracked"""
+    objs, err = clang_ast("mem_fun", incdir)
+    rows = []
+    for o in objs:
+        for f in find_all(o, lambda n: n.get("kind") == "FunctionDecl" and n.get("name") == "mem_fun"):
+            params = [c for c in f.get("inner", []) if c.get("kind") == "ParmVarDecl"]
+            if len(params) != 2:
+                continue
+            objty = params[0].get("type", {}).get("qualType", "")
+            objcls = re.sub(r"^(const |volatile )*", "", objty).replace("&", "").strip()
+            cons = find_all(f, lambda n: n.get("kind") in ("CXXUnresolvedConstructExpr", "CXXTemporaryObjectExpr", "CXXFunctionalCastExpr"))
+            ty = cons[0].get("type", {}).get("qualType", "") if cons else ""
+            for _ in range(2):      # local aliases
+                for a in find_all(f, lambda x: x.get("kind") in ("TypeAliasDecl", "TypedefDecl")):
+                    if a.get("name"):
+                        ty = re.sub(r"\b%s\b" % re.escape(a["name"]), a.get("type", {}).get("qualType", ""), ty)
+            m = re.search(r"\((\w+)::\*\)\s*\([^)]*\)\s*((?:const)?\s*(?:volatile)?)", ty)
+            cv = " ".join(m.group(2).split()) if m else "?"
+            cls = m.group(1) if m else "Unrecognised"
+            rows.append((cv or "none", "object" if cls == objcls else ("method" if cls != "Unrecognised" else "Unrecognised")))
+    return sorted(rows)
+
+
 def extract_pp(incdir):
     """preprocessor conditionals of the library sources (header guards excluded) and the names that
     exist only when deprecated API is enabled"""
@@ -625,6 +655,7 @@ def generate(incdir, outpath):
     pp_conds, dep_only = extract_pp(incdir)
     casts = extract_casts(incdir)
     sigconn = extract_signal_connect(incdir)
+    mfclass = extract_memfun_class(incdir)
     mf_pass, mf_verdicts = extract_memfun_pass(incdir)
     L = []
     L.append("(* GENERATED by translate/cxx2coq.py from %s -- do not edit. *)" % REPO)
@@ -713,6 +744,10 @@ def generate(incdir, outpath):
     L.append("Definition gen_casts : list (string * string * string * string) := [")
     L.append(";\n".join("  (%s, %s, %s, %s)" % tuple(coq_str(x) for x in row) for row in casts))
     L.append("].")
+    L.append("(* bound mem_fun factories: cv-qualification of the method, class the functor is typed after *)")
+    L.append("Definition gen_memfun_class : list (string * string) := [")
+    L.append(";\n".join("  (%s, %s)" % (coq_str(cv), coq_str(c)) for cv, c in mfclass))
+    L.append("].")
     L.append("(* signal_connect overloads: kind of callable, factory handed to signal.connect(), own parameters passed on in order *)")
     L.append("Definition gen_signal_connect : list (string * string * bool) := [")
     L.append(";\n".join("  (%s, %s, %s)" % (coq_str(k), coq_str(fa), "true" if io else "false") for k, fa, io in sigconn))
@@ -728,7 +763,7 @@ def generate(incdir, outpath):
             fh.write(text)
     return {"visitors": vis, "classes": {k: {"fields": v["fields"], "modes": [hop_mode(o) for o in v["ops"]],
                                              "slices": [s for o in v["ops"] for s in o["slices"]]} for k, v in cls.items()},
-            "take": take, "casts": casts, "signal_connect": sigconn, "memfun_pass": [mf_pass, mf_verdicts], "globals": glob, "callsig": cs, "pp_conditionals": pp_conds, "deprecated_only": dep_only, "digest": hashlib.sha256(text.encode()).hexdigest()[:16], "changed": old != text}
+            "take": take, "casts": casts, "signal_connect": sigconn, "memfun_class": mfclass, "memfun_pass": [mf_pass, mf_verdicts], "globals": glob, "callsig": cs, "pp_conditionals": pp_conds, "deprecated_only": dep_only, "digest": hashlib.sha256(text.encode()).hexdigest()[:16], "changed": old != text}
 
 
 if __name__ == "__main__":
